@@ -371,7 +371,7 @@ def dstu_enc(P):
     b[9:9 + 64] = le(P['B'], 64)
     b[73:73 + 64] = le(P['n'], 64)
     struct.pack_into('<I', b, 140, P['c'])
-    if P.get('P'):
+    if P.get('P') and 0 < no <= 64 and not (P['P'][0] >> (8 * no) or P['P'][1] >> (8 * no)):
         b[144:144 + no] = le(P['P'][0], no)
         b[144 + no:144 + 2 * no] = le(P['P'][1], no)
     return bytes(b)
@@ -912,6 +912,88 @@ def _pfok_cases(tier):
                 for bl, xb in Xm:
                     for vl, ub in Xm:
                         out.append(('pfokMTI', dict(params=par, privkey=le(xa, mo), privkey1=le(ua, mo), pubkey=le(Y[bl], no), pubkey1=le(Y[vl], no))))
+    return out
+
+def sweep_cases(tier):
+    """C09 argument sweeps: out-of-domain scalars / lengths / levels whose error code the headers name (\expect{ERR_...})"""
+    out = []
+    q = B96['q']
+    pub1 = memo('b96pub:1', lambda: RB.enc_point(96, RB.pubkey_calc(96, 1)))
+    h = bytes(24)
+    sig = memo('b96sig:1:0:5', lambda: RB.bign96_sign_k(OID, h, 1, 5))
+    tape = le(5, 24)
+    for l in (0, 95, 97, 128, 192, 256, 1 << 32):              # bign96.h: only l == 96 (ERR_BAD_PARAMS)
+        par = b96_enc(l=l)
+        out += [('bign96ParamsVal', dict(params=par)), ('bign96KeypairGen', dict(params=par, rng=tape)),
+                ('bign96KeypairVal', dict(params=par, privkey=le(1, 24), pubkey=pub1)), ('bign96PubkeyVal', dict(params=par, pubkey=pub1)),
+                ('bign96PubkeyCalc', dict(params=par, privkey=le(1, 24))),
+                ('bign96Sign', dict(params=par, oid=OID, hash=h, privkey=le(1, 24), rng=tape)),
+                ('bign96Sign2', dict(params=par, oid=OID, hash=h, privkey=le(1, 24), t=None)),
+                ('bign96Verify', dict(params=par, oid=OID, hash=h, sig=sig, pubkey=pub1))]
+    for oid in (b'', OID[:-1], OID + b'\x00', b'\x05' + OID[1:], OID[:1] + bytes([OID[1] + 1]) + OID[2:]):   # ERR_BAD_OID
+        out += [('bign96Sign', dict(params=B96_STD, oid=oid, hash=h, privkey=le(1, 24), rng=tape)),
+                ('bign96Sign2', dict(params=B96_STD, oid=oid, hash=h, privkey=le(1, 24), t=None)),
+                ('bign96Verify', dict(params=B96_STD, oid=oid, hash=h, sig=sig, pubkey=pub1))]
+    for d in (0, q, q + 1, (1 << 192) - 1):                     # ERR_BAD_PRIVKEY
+        out += [('bign96PubkeyCalc', dict(params=B96_STD, privkey=le(d, 24))),
+                ('bign96Sign', dict(params=B96_STD, oid=OID, hash=h, privkey=le(d, 24), rng=tape)),
+                ('bign96Sign2', dict(params=B96_STD, oid=OID, hash=h, privkey=le(d, 24), t=None)),
+                ('bign96KeypairVal', dict(params=B96_STD, privkey=le(d, 24), pubkey=pub1))]
+    for nm in ('', '1.2.112.0.2.0.34.101.45.3.1', B96_NAME + '.1'):
+        out.append(('bign96ParamsStd', dict(name=nm)))
+    # g12s: l in {256, 512}
+    P = g12_std(RG.STD_NAMES[1])
+    mo = 32
+    pub = memo('g12pub:%s:%d' % (RG.STD_NAMES[1], 1), lambda: RG.keypair(P, 1)[1])
+    for l in (0, 255, 257, 384, 511, 513, 1024):
+        par = g12_enc(dict(P, l=l))
+        out += [('g12sParamsVal', dict(params=par)), ('g12sKeypairGen', dict(params=par, rng=le(5, mo))),
+                ('g12sSign', dict(params=par, hash=bytes(mo), privkey=le(1, mo), rng=le(5, mo))),
+                ('g12sVerify', dict(params=par, hash=bytes(mo), sig=bytes(2 * mo), pubkey=pub))]
+    for d in (0, P['q'], P['q'] + 1, (1 << 256) - 1):
+        out.append(('g12sSign', dict(params=g12_enc(P), hash=bytes(mo), privkey=le(d, mo), rng=le(5, mo))))
+    for nm in ('', '1.2.643.2.2.35.4', '1.2.643.7.1.2.1.2.3'):
+        out.append(('g12sParamsStd', dict(name=nm)))
+    # dstu: ld (ERR_BAD_INPUT), field degree and A (ERR_BAD_PARAMS)
+    D = dstu_std(0)
+    par = dstu_enc(D)
+    on, no = (D['n'].bit_length() + 7) // 8, (D['p'][0] + 7) // 8
+    dpub = memo('dstupub:0:1', lambda: RD.encode_point(D, RD.pubkey_calc(D, 1)))
+    for ld in (0, 1, 8, 15, 16, 16 * on - 16, 16 * on - 1, 16 * on + 1, 16 * on + 8, 16 * on + 15):
+        out.append(('dstuSign', dict(params=par, ld=ld, hash=bytes(no), privkey=le(1, on), rng=le(5, on))))
+        out.append(('dstuVerify', dict(params=par, ld=ld, hash=bytes(no), sig=bytes((ld + 7) // 8), pubkey=dpub)))
+    for bad in (dict(D, p=(159, 7, 6, 3)), dict(D, p=(510, 7, 6, 3)), dict(D, p=(0, 0, 0, 0)), dict(D, A=2), dict(D, A=255)):
+        bp = dstu_enc(bad)
+        out += [('dstuParamsVal', dict(params=bp)), ('dstuPointVal', dict(params=bp, point=dpub)), ('dstuKeypairGen', dict(params=bp, rng=le(5, on))),
+                ('dstuPointGen', dict(params=bp, rng=le(5, no))), ('dstuPointCompress', dict(params=bp, point=dpub)),
+                ('dstuPointRecover', dict(params=bp, xpoint=dpub[:no])),
+                ('dstuSign', dict(params=bp, ld=16 * on, hash=bytes(no), privkey=le(1, on), rng=le(5, on))),
+                ('dstuVerify', dict(params=bp, ld=16 * on, hash=bytes(no), sig=bytes(2 * on), pubkey=dpub))]
+    for nm in ('', '1.2.804.2.1.1.1.1.3.1.1.1.2.10', '1.2.804.2.1.1.1.1.3.1.1.1.2'):
+        out.append(('dstuParamsStd', dict(name=nm)))
+    # pfok: (l, r) from table 5.1, n < l (ERR_BAD_PARAMS); public values in (0, p) (ERR_BAD_PUBKEY); private keys below 2^r (ERR_BAD_PRIVKEY)
+    F = RP.params_std('test')
+    fp = pfok_enc(F)
+    mo, no = (F['r'] + 7) // 8, (F['l'] + 7) // 8
+    y = le(RP.pubkey_calc(F, 5), no)
+    x = le(5, mo)
+    for bad in (dict(F, l=637), dict(F, l=639), dict(F, l=0), dict(F, r=129), dict(F, r=131), dict(F, n=F['l']), dict(F, n=F['l'] + 1), dict(F, g=0), dict(F, g=F['p']),
+                dict(F, p=F['p'] - 2), dict(F, p=F['p'] >> 1)):
+        bp = pfok_enc(bad)
+        out += [('pfokParamsVal', dict(params=bp)), ('pfokKeypairGen', dict(params=bp, rng=x)), ('pfokPubkeyVal', dict(params=bp, pubkey=y)),
+                ('pfokPubkeyCalc', dict(params=bp, privkey=x)), ('pfokDH', dict(params=bp, privkey=x, pubkey=y)),
+                ('pfokMTI', dict(params=bp, privkey=x, privkey1=x, pubkey=y, pubkey1=y))]
+    for yy in (0, F['p'], F['p'] + 1, (1 << (8 * no)) - 1):
+        yb = le(yy, no)
+        out += [('pfokPubkeyVal', dict(params=fp, pubkey=yb)), ('pfokDH', dict(params=fp, privkey=x, pubkey=yb)),
+                ('pfokMTI', dict(params=fp, privkey=x, privkey1=x, pubkey=yb, pubkey1=y)), ('pfokMTI', dict(params=fp, privkey=x, privkey1=x, pubkey=y, pubkey1=yb))]
+    for xx in (1 << F['r'], (1 << (8 * mo)) - 1):
+        xb = le(xx, mo)
+        out += [('pfokPubkeyCalc', dict(params=fp, privkey=xb)), ('pfokDH', dict(params=fp, privkey=xb, pubkey=y)),
+                ('pfokMTI', dict(params=fp, privkey=xb, privkey1=x, pubkey=y, pubkey1=y)), ('pfokMTI', dict(params=fp, privkey=x, privkey1=xb, pubkey=y, pubkey1=y))]
+    for nm in ('', 'test2', '1.2.112.0.2.0.1176.2.3.1.2'):
+        out.append(('pfokParamsStd', dict(name=nm)))
+    save_cache()
     return out
 
 _cases = {}
